@@ -27,6 +27,8 @@ func checkC07(c *Ctx) {
 	c.Rule("C07/R8", ".config in a filter and .unit in a projection are rejected with a syntax error")
 
 	c.Rule("C07/R12", "any string is usable as a quoted literal: every token returned by the quoted-word scanner has the quoted-word kind or is the error token, independent of its text")
+	c.Rule("C07/R14", "never a panic by overrun: where the expression scanners test a position against the length of the text (i+g < len) every later read at that base stays within what was tested (no read at i+o with o > g, as happens when the index is stepped between the test and the read)")
+	c.Rule("C07/R13", "never a hang: in the expression parsers a loop that reads tokens from a cursor advances the cursor on every path back to its head")
 	c.Rule("C07/R11", "rejections are positioned: every error returned by NewFilter, ProjectionParser.Parse and their closures is nil, a *parse.SyntaxError built there, or passed on unchanged from ParseFilter/ParseProjection or a recursive call — never a helper's bare error")
 	c.Rule("C07/R10", "token modes: the value tokenizer (the only place a leading '/' starts a regexp) is not reachable from the projection parser")
 	c.Rule("C07/R9", "no error is overwritten unseen: in the parsers and in the filter/projection constructors an error produced by a call inside a loop is compared with nil (or returned) inside that loop, so an invalid operand that is not the last one is still rejected")
@@ -103,6 +105,8 @@ func checkC07(c *Ctx) {
 	c07Modes(c, p)
 	c07Positioned(c, p)
 	c07QuotedKind(c, p)
+	c07Progress(c, p)
+	c07StaleGuards(c, p)
 }
 
 // byteIndexOf: v is a byte read s[i] (string Lookup or load of IndexAddr); returns the index value.
@@ -1201,4 +1205,45 @@ func c07QuotedKind(c *Ctx, p *Prog) {
 			fmt.Sprintf("the quoted-word scanner returns a token of kind %s when %s: a quoted \"AND\" or \"OR\" (also spelled with escapes) becomes an operator, so values or keys with those names cannot be written at all", ks, truncate(o.AssignStr(), 160)))
 	}
 	c.Floor(R, "returns of the quoted-word scanner", n, 3)
+}
+
+// c07Progress (C07/R13).
+func c07Progress(c *Ctx, p *Prog) {
+	const R = "C07/R13"
+	isCursor := func(t types.Type) bool { return recvName(t) == "tokenizer" }
+	n := 0
+	for _, fn := range p.Funcs("benchproc/internal/parse") {
+		stuck, k := stuckLoops(fn, isCursor)
+		n += k
+		for i, at := range stuck {
+			c.Bad(R, fmt.Sprintf("%s:cursor-not-advanced#%d", fnName(fn), i+1), p.pos(at.Pos()), "a loop reads a token from the tokenizer and can return to its head without having stored the advanced tokenizer: the same token is read again on the next iteration, so an expression that takes this path (e.g. a repeated word in a fixed list, a@(x y x)) makes the parser spin for ever")
+		}
+	}
+	c.OK(R, "progress:loops", "", fmt.Sprintf("%d token loops, each advances its cursor on every path back to the head", n))
+	c.Floor(R, "token loops in the expression parsers", n, 2)
+}
+
+// c07StaleGuards (C07/R14).
+func c07StaleGuards(c *Ctx, p *Prog) {
+	const R = "C07/R14"
+	n := 0
+	for _, fn := range p.Funcs("benchproc/internal/parse", "benchproc") {
+		sg, k := staleGuards(fn)
+		n += k
+		for i, g := range sg {
+			c.Bad(R, fmt.Sprintf("%s:read-beyond-tested-bound#%d", fnName(fn), i+1), p.pos(g.Read.Pos()), fmt.Sprintf("the text is read at offset %+d from a position that was only tested up to offset %+d against its length: an expression that ends exactly there (e.g. x:/[^) makes the scanner index out of range and the parser panics instead of reporting a syntax error", g.Offset, g.Guarded))
+		}
+	}
+	c.OK(R, "bounds:reads", "", fmt.Sprintf("%d indexed reads in the expression parsers, none beyond a bound tested for its own base", n))
+	ctl := mustLoad(c, loadOpts{dir: c.HomeDir + "/checker"}, "./testdata/lookbehind")
+	nCtl := 0
+	for _, fn := range ctl.Funcs("perfcheck/testdata/lookbehind") {
+		sg, _ := staleGuards(fn)
+		nCtl += len(sg)
+	}
+	if nCtl == 0 {
+		c.Undecided(R, "positive-control", "", "the stale-guard matcher no longer recognises its own positive example")
+	} else {
+		c.OK(R, "positive-control", "checker/testdata/lookbehind/lb.go", "matcher fires on the stored stepped-past-the-test read")
+	}
 }
